@@ -193,6 +193,7 @@ class Env:
     def __init__(self):
         self.by_ty = {}      # ty -> [text]
         self.fields = []     # texts usable in $present (any type)
+        self.params = []     # runtime parameters: referred to like fields, but not fields
         self.enums = {}      # canonical enum name -> [value names] (only enums nameable in this module)
         self.alias = {}      # canonical enum name -> how this module spells it (`Ea`, `oth.Ea`)
 
@@ -200,11 +201,14 @@ class Env:
         self.by_ty.setdefault(ty, []).append(text)
         if field:
             self.fields.append((text, ty))
+        elif text != "this":
+            self.params.append((text, ty))
 
     def copy(self):
         e = Env()
         e.by_ty = {k: list(v) for k, v in self.by_ty.items()}
         e.fields = list(self.fields)
+        e.params = list(self.params)
         e.enums = self.enums
         e.alias = self.alias
         return e
@@ -942,7 +946,7 @@ def mut_function(r, m):
     bools = [(p, n) for p, n in subterms(s["expr"]) if n[0] == "bool" or (n[0] == "ref" and n[2] == "bool")
              or (n[0] == "bin" and n[1] in ORD + EQ + LOGIC) or (n[0] == "fn" and n[1] == "$present")]
     variant = r.choice(["max-0", "max-bool", "max-enum", "max-opaque", "max-bool", "max-enum",
-                        "present-0", "present-n", "present-expr", "present-const",
+                        "present-0", "present-n", "present-expr", "present-const", "present-param",
                         "upper-0", "upper-n", "upper-bool", "lower-0", "lower-n", "lower-enum"])
     detail = ""
     if variant.startswith("present"):
@@ -958,6 +962,11 @@ def mut_function(r, m):
             detail = "arity %d" % k
         elif variant == "present-expr":
             new = ("fn", "$present", [("bin", "+", g.gen("int", 1), ("num", 1))])
+        elif variant == "present-param":
+            # "The argument to `$present()` must be a reference to a field": a parameter is not one
+            if not env.params:
+                return None
+            new = ("fn", "$present", [("ref", r.choice(env.params)[0], "any")])
         else:
             c = _nameable_enum(r, env)
             new = ("fn", "$present", [r.choice([("num", 1), ("bool", True),
